@@ -1254,3 +1254,123 @@ OCTETS_DEC_INDEF = Contract(
     may_raise={'PyAsn1Error': True},
     external=['the-fragments-in-order', 'ended-by-the-marker', 'one-result'])
 CONTRACTS = CONTRACTS + [OCTETS_DEC_INDEF]
+
+
+# ---- schemaless constructed values: every decoded element kept, in order, in a container that is a value (C16) -------------------
+from contracts.univ_containers import sym_list, ElemSeq, _list_as_seq, idof, NOV as _NOV
+from pyvc.core import RecSeqV as _RecSeqV
+
+
+class _ComponentSeq(_RecSeqV):
+    """iteration over the python list of decoded components (identity tokens)"""
+
+    def elem(self, i):
+        return Obj('Asn1Item', {'__id__': self.cols[0][i]}, name='component')
+
+
+def _sl_list(ex):
+    """the python list of decoded components: a sequence of identity tokens"""
+    def append(ex2, self, v):
+        self.fields['items'] = SeqV(z3.Concat(self.fields['items'].z, z3.Unit(idof(v))), 'any')
+    return Obj('list', {'items': SeqV(z3.Empty(S), 'any')},
+               {'append': append, '__iter__': lambda ex2, self: _ComponentSeq([self.fields['items'].z], names=('__id__',)),
+                '__len__': lambda ex2, self: Length(self.fields['items'].z)}, name='components')
+
+
+def _sl_set(ex, *a):
+    """set() of the element tag sets: only its size matters to the guess (1 kind of element -> SEQUENCE OF, more -> SEQUENCE)"""
+    def add(ex2, self, item):
+        grows = ex2.fresh('set.grows', BoolSort())
+        self.fields['size'] = self.fields['size'] + If(grows, 1, 0)
+    return Obj('set', {'size': IntVal(0)}, {'add': add, '__len__': lambda ex2, self: self.fields['size']}, name='componentTypes')
+
+
+def _sl_decode(ex, substrate, asn1Spec=None, **options):
+    """assumed contract of decodeFun without a guide: consumes at least one octet and returns a value object with a tag
+    set, or the end-of-octets marker (allowEoo), or raises"""
+    if ex.choose(ex.fresh('element.raises', BoolSort()), 'element-raises'):
+        raise _Raise(ExcV('PyAsn1Error'))
+    k = ex.fresh('element.octets', I)
+    ex.assume(k >= 1)
+    substrate.fields['pos'] = substrate.fields['pos'] + k
+    if options.get('allowEoo') is True and ex.choose(ex.fresh('element.eoo', BoolSort()), 'end-of-octets'):
+        return END_OF_OCTETS          # the marker is handed out only to a caller that allows it
+    ident = ex.fresh('element.id', I)
+    ex.assume(ident < 0)              # a fresh value object: not one of the modelled singletons (their tokens are positive)
+    substrate.fields['decoded'] = SeqV(z3.Concat(substrate.fields['decoded'].z, z3.Unit(ident)), 'any')
+    return Obj('Asn1Item', {'__id__': ident, 'tagSet': Obj('TagSet', {}, name='component.tagSet')}, name='component')
+
+
+_sl_decode.is_generator_model = True
+
+
+def _sl_proto(kind):
+    def clone(ex, self, *a, **kw):
+        def set_pos(ex2, me, idx, value, *a2, **kw2):
+            me.fields['stored'] = SeqV(z3.Concat(me.fields['stored'].z, z3.Unit(idof(value))), 'any')
+            me.fields['positionsInOrder'] = And(me.fields['positionsInOrder'], toint(idx) == Length(me.fields['stored'].z) - 1)
+            return me
+
+        def clear(ex2, me):
+            me.fields['cleared'] = True
+            return me
+        return Obj('Asn1Value', {'kind': kind, 'stored': SeqV(z3.Empty(S), 'any'), 'positionsInOrder': z3.BoolVal(True),
+                                 'cleared': False, 'tagSetArg': kw.get('tagSet')},
+                   {'setComponentByPosition': set_pos, 'clear': clear}, name='asn1Object')
+    return Obj('Asn1Type', {'tagSet': Obj('TagSet', {'baseTag': Obj('Tag', {}, name='baseTag')}, name='proto.tagSet')}, {'clone': clone},
+               name='proto' + kind)
+
+
+class PGuess(PObjOneOf):
+    """the container guessed so far: None before the first element, afterwards a fresh clone of one of the two prototypes
+    (nothing stored in it yet: the elements are stored after the loop)"""
+
+    def __init__(self):
+        PObjOneOf.__init__(self, singletons=[None], classes=['Asn1Value'])
+
+    def make(self, ex, name):
+        if ex.choose(z3.Bool(name + '.none-yet'), 'no-guess-yet'):
+            return None
+        kind = 'record' if ex.choose(z3.Bool(name + '.record'), 'guessed-record') else 'collection'
+        return _sl_proto(kind).methods['clone'](ex, None)
+
+    def admits(self, v):
+        if v is None:
+            return True
+        return isinstance(v, Obj) and v.cls == 'Asn1Value' and v.fields.get('cleared') is False and \
+            z3.is_app(v.fields['stored'].z) and v.fields['stored'].z.decl().kind() == z3.Z3_OP_SEQ_EMPTY
+
+
+SCHEMALESS = Contract(
+    id='ber.decoder::ConstructedPayloadDecoderBase._decodeComponentsSchemaless', file=F,
+    qual='ConstructedPayloadDecoderBase._decodeComponentsSchemaless', is_generator=True, properties=['C16', 'C08', 'C10'],
+    params=dict(self=PObj('ConstructedPayloadDecoderBase', protoRecordComponent=PConst(_sl_proto('record')),
+                          protoSequenceComponent=PConst(_sl_proto('collection'))),
+                substrate=PDerived(lambda ex, env: Obj('Stream', {'pos': z3.Int('substrate.pos0'), 'decoded': SeqV(z3.Empty(S), 'any')},
+                                                       {'tell': lambda ex2, self: self.fields['pos']}, name='substrate')),
+                tagSet=PConst(Obj('TagSet', {'superTags': Tup([])}, name='tagSet')), decodeFun=PConst(None),
+                length=PInt(), options=POptions()),
+    globals={'set': FnV(_sl_set, 'set'), 'eoo': {'endOfOctets': END_OF_OCTETS, '__name__': 'eoo'},
+             'tag': {'TagSet': FnV(lambda ex, base=None, *tags: Obj('TagSet', {'base': base}, name='guessedTagSet'), 'tag.TagSet'),
+                     '__name__': 'tag'},
+             'as_seq': FnV(lambda ex, lst: SeqV(_list_as_seq(ex, lst), 'any'), 'as_seq')},
+    requires=['length >= -1'],
+    calls={'decodeFun': _sl_decode},
+    loops={0: Loop(invariant=['not value_yielded()', 'substrate.pos >= original_position',
+                              'components.items == substrate.decoded', 'componentTypes.size >= 0',
+                              '(asn1Object is None) == (len(substrate.decoded) == 0)'],
+                   havoc_fields=['substrate.pos', 'substrate.decoded', 'components.items', 'componentTypes.size'],
+                   decl={'asn1Object': PGuess(),
+                         'protoComponent': Obj('Stale', {}, name='prototype-of-the-previous-iteration')}),
+           2: Loop(index='k', invariant=['asn1Object.stored == X.sub(substrate.decoded, 0, k)', 'asn1Object.positionsInOrder'],
+                   havoc_fields=['asn1Object.stored', 'asn1Object.positionsInOrder'])},
+    yield_ensures=[
+        # C16: never None, never a valueless placeholder: a container holding every decoded element, in wire order
+        ('a-container-with-every-element-in-order', 'y is not None and y.stored == substrate.decoded and y.positionsInOrder'),
+        ('an-empty-container-is-a-value-too', 'len(substrate.decoded) == 0 ==> y.cleared')],
+    exit_ensures=[('one-result', 'nyields() == 1')],
+    may_raise={'PyAsn1Error': True},
+    note='decodeFun and the prototypes\' clone/setComponentByPosition are assumed models; which prototype is guessed (one kind '
+         'of element -> SEQUENCE OF, several -> SEQUENCE) is covered by the schemaless stand-in')
+SCHEMALESS.empty_list = _sl_list
+CONTRACTS = CONTRACTS + [SCHEMALESS]
